@@ -741,7 +741,10 @@ Crash(n) ==
   /\ node' = [node EXCEPT ![n] = [alive |-> FALSE, disk |-> DiskOf(node[n])]]
   /\ alive' = {p \in alive : n \notin p}
   /\ up' = {u \in up : u[1] # n}
-  /\ chan' = [i \in Nodes |-> [j \in Nodes |-> IF i = n \/ j = n THEN <<>> ELSE chan[i][j]]]
+  \* what the dead process had already sent is still on its way (the kernel delivers it before the end-of-stream)
+  \* to every peer that has not noticed the loss of the connection; what was on its way to it is lost
+  /\ chan' = [i \in Nodes |-> [j \in Nodes |->
+                IF j = n THEN <<>> ELSE IF i = n THEN (IF <<j, n>> \in up THEN chan[n][j] ELSE <<>>) ELSE chan[i][j]]]
   /\ UNCHANGED <<cbs, nexc, snaps>>
 
 (* SyncObj.__init__ on the files a dead process left behind *)
@@ -793,7 +796,9 @@ Notice(i, j) ==
                                                \* (a transfer to it stays behind under the dead connection's id, unreachable)
                                                !.trans = IF j \in DOMAIN @ THEN RemoveKey(@, j) ELSE @]]
              ELSE [node EXCEPT ![i].conn = @ \ {j}]
-  /\ UNCHANGED <<chan, alive, cbs, nexc, snaps>>
+  \* i closes its end: whatever j had sent and i has not read is gone (nothing, unless j's process died)
+  /\ chan' = [chan EXCEPT ![j][i] = <<>>]
+  /\ UNCHANGED <<alive, cbs, nexc, snaps>>
 
 (* i dials j: i's side is connected at once, j's side when the hello arrives *)
 Connect(i, j) ==
